@@ -308,31 +308,42 @@ def check_state(dom, m, ref=None):
         errs.append(('leafset', {'only_impl': sorted(S5 - ref.leaves)[:3], 'only_ref': sorted(ref.leaves - S5)[:3]}))
     # every leaf is an axis-parallel square, counter-clockwise from the lower left corner
     size = max(r[2] for r in model.roots) - min(r[0] for r in model.roots)
+    fcache = {}
+
+    def fr(x):
+        f = fcache.get(x)
+        if f is None:
+            f = fcache[x] = Fraction(x)
+        return f
+
+    area = Fraction(0)
+    tolF = Fraction(PI_TOL) * Fraction(size)
     for e, l5 in zip(leaves, L5):
         x0, y0, x1, y1, _ = l5
         vs = [xy(v) for v in e.vertices]
         if len(vs) != 4 or vs != [(x0, y0), (x1, y0), (x1, y1), (x0, y1)] or not (x0 < x1 and y0 < y1):
             errs.append(('not-axis-parallel', l5))
             continue
-        w, h = Fraction(x1) - Fraction(x0), Fraction(y1) - Fraction(y0)
+        w, h = fr(x1) - fr(x0), fr(y1) - fr(y0)
+        area += w * h
         # dyadic domains: exactly square.  pi square: the double midpoints make width and height differ in the last
         # bits of the *coordinates* (the precise statement there is 'descent' below); a genuine non-square differs
         # by at least half a cell.
-        if (w != h) if DYADIC[dom] else (abs(w - h) > Fraction(PI_TOL) * Fraction(size)):
+        if (w != h) if DYADIC[dom] else (abs(w - h) > tolF):
             errs.append(('not-square', l5))
     # exact tiling: inside the domain, areas add up, interiors pairwise disjoint
     for l5 in L5:
         if not model.inside(l5):
             errs.append(('outside', l5))
-    area = sum((Fraction(e[2]) - Fraction(e[0])) * (Fraction(e[3]) - Fraction(e[1])) for e in L5)
-    if area != model.domain_area():
+    if area != model.domain_area() and not any(t == 'not-axis-parallel' for t, _ in errs):
         errs.append(('area', {'sum': str(area), 'domain': str(model.domain_area())}))
     Ls = sorted(L5)
     for i, a in enumerate(Ls):
         for b in Ls[i + 1:]:
             if b[0] >= a[2]:
                 break
-            if min(a[2], b[2]) > max(a[0], b[0]) and min(a[3], b[3]) > max(a[1], b[1]):
+            # sorted by x0 and not yet past a's right end: the open x-ranges intersect iff b is not degenerate
+            if b[2] > a[0] and b[2] > b[0] and a[3] > b[1] and b[3] > a[1]:
                 errs.append(('overlap', (a, b)))
     # descent: every element is the quadrant of its parent that the double midpoints prescribe, one level deeper; the
     # parentless elements are exactly the level-0 cells of the domain; every refined element has its four quadrants
